@@ -11,7 +11,7 @@ pub trait WalletLCProvider<'a, C, K> where C: NodeClient + 'a, K: Keychain + 'a 
     // A-store-wf: the store of an opened wallet is well formed (records under their own keys, commit caches hex or recomputable);
     // this is the precondition the same functions state explicitly when they are handed the wallet directly
     fn wallet_inst(&mut self) -> (r: Result<&mut Box<dyn WalletBackend<'a, C, K> + 'a>, Error>)
-        ensures r matches Ok(w) ==> store_wf(w.state()) && log_amounts_ok(w.state());   // + A-log-amounts
+        ensures r matches Ok(w) ==> store_wf(w.state()) && log_amounts_ok(w.state()) && accounts_ok(w.state());   // + A-log-amounts, A-accounts
 }
 pub trait WalletInst<'a, L, C, K> where L: WalletLCProvider<'a, C, K>, C: NodeClient + 'a, K: Keychain + 'a {
     fn lc_provider(&mut self) -> Result<&mut (dyn WalletLCProvider<'a, C, K> + 'a), Error>;
